@@ -125,7 +125,17 @@ def write_pdf(pages: list, props: dict | None = None, images: dict | None = None
         content.append(b"ET")
         xobjs = b""
         for k, img in enumerate((images or {}).get(pi, []), start=1):
-            if img["kind"] == "jpeg":
+            cs = img.get("cs", "rgb")
+            if cs != "rgb":
+                # /ColorSpace as an array: [/ICCBased n 0 R], or an indexed space over it (array nested in an array)
+                prof = b"ICCPROFILE-" + bytes(range(64))
+                icc = add(b"<< /N 3 /Length %d >>\nstream\n" % len(prof) + prof + b"\nendstream")
+                csb = (b"[/ICCBased %d 0 R]" % icc if cs == "icc"
+                       else b"[/Indexed [/ICCBased %d 0 R] 3 <000000FF000000FF000000FF>]" % icc)
+                d = zlib.compress(img["data"])
+                io_ = add(b"<< /Type /XObject /Subtype /Image /Width %d /Height %d /ColorSpace " % (img["w"], img["h"]) + csb
+                          + b" /BitsPerComponent 8 /Filter /FlateDecode /Length %d >>\nstream\n" % len(d) + d + b"\nendstream")
+            elif img["kind"] == "jpeg":
                 d = img["data"]
                 io_ = add(b"<< /Type /XObject /Subtype /Image /Width %d /Height %d /ColorSpace /DeviceRGB "
                           b"/BitsPerComponent 8 /Filter /DCTDecode /Length %d >>\nstream\n" % (img["w"], img["h"], len(d))
